@@ -1,24 +1,197 @@
 /-
-C01 — encode/decode round trip (work in progress: framing layer + encoder shape are proved;
-the group layer `stepAll_wfTop` is composed in when Lemmas/CodecGroups lands).
+C01 — encode/decode round trip preserves every well-formed message.
+
+Statement (`encode_decode`): for every message `m`, session, encoding mode and clock value such that
+the container the decoder is expected to rebuild is well-formed w.r.t. the group table (`wfTop`, the
+explicit decidable predicate – evaluated by the compiled model on every generated message of the
+correspondence run), the encoder succeeds and decoding its bytes returns exactly that container
+(same type, same fields in the same order with the same values, same group nesting / item count /
+item order, header carrying the session's CompIDs and the selected sequence number), reports the
+whole frame as consumed and returns the frame bytes unchanged.
+
+Layers: encoder shape (Lemmas/CodecEncodeShape) – framing (Lemmas/CodecFrame*, agent c01f) –
+group reconstruction (Lemmas/CodecGroups*, agent c01g).
 -/
-import AsyncFix.Lemmas.CodecFrameB
+import AsyncFix.Lemmas.CodecGroupsF
+import AsyncFix.Lemmas.CodecFlat
 import AsyncFix.Lemmas.CodecEncodeShape
+import AsyncFix.Generated.Proto
 namespace AsyncFix.Props.C01
 open AsyncFix.Model.Codec
 
-/-- the decoder on a structurally valid frame is exactly its field loop over the frame's fields:
-whole frame consumed, raw bytes returned unchanged -/
-theorem decode_valid_frame (bs : Bytes) (tbl : Tbl) (fs : List Fld)
-    (hb : okBegin bs = true) (hf : okFields fs = true)
-    (hd : (natToDec (bodyBytes fs).length).length ≤ maxStrDigits) :
-    decode bs tbl (mkFrame bs fs) = decodeViaLoop bs tbl fs :=
-  decode_mkFrame bs tbl fs hb hf hd
+/-- all fields the encoder emits between BodyLength and CheckSum -/
+def wireFlds (m : Msg) (s : Session) (seq now : Bytes) : List Fld :=
+  hdrFlds m.mtype s.sender s.target seq now ++ flatCont (bodyOf m)
 
-/-- the encoder's output is the valid frame of header fields + the body's wire-order fields -/
-theorem encode_is_mkFrame (bs : Bytes) (m : Msg) (s : Session) (seq now : Bytes) (flat : List Fld)
-    (hflat : addCont (bodyOf m) = .ok (flat.map fun f => fieldBytes f.tag f.val)) :
-    assemble bs m s seq now = .ok (mkFrame bs (hdrFlds m.mtype s.sender s.target seq now ++ flat)) :=
-  assemble_eq_mkFrame bs m s seq now flat hflat
+/-- the container the decoder must return, without its final CheckSum entry:
+`8, 9, 35, 49, 56, 34, 52`, then the message's own entries (minus 34/52/49/56) unchanged -/
+def expectedCont (bs : Bytes) (m : Msg) (s : Session) (seq now : Bytes) : Cont :=
+  ((preFlds bs (wireFlds m s seq now)).take 7).map (fun f => Node.leaf f.tag f.val) ++ bodyOf m
+
+theorem expectedCont_eq (bs : Bytes) (m : Msg) (s : Session) (seq now : Bytes) :
+    expectedCont bs m s seq now =
+      ((preFlds bs (wireFlds m s seq now)).take 7).map (fun f => Node.leaf f.tag f.val) ++ bodyOf m := rfl
+
+theorem flat_expectedCont (bs : Bytes) (m : Msg) (s : Session) (seq now : Bytes) :
+    flatCont (expectedCont bs m s seq now) = preFlds bs (wireFlds m s seq now) := by
+  rw [expectedCont_eq, flatCont_append, flatCont_leaves]
+  simp [preFlds, wireFlds, hdrFlds]
+
+theorem wfNodes_drop {tbl : Tbl} {ms? : Option (List Tag)} (xs : List Node) :
+    ∀ {seen : List Tag} {ys : List Node}, wfNodes tbl ms? seen (xs ++ ys) = true →
+      ∃ seen', wfNodes tbl ms? seen' ys = true := by
+  induction xs with
+  | nil => intro seen ys h; exact ⟨seen, h⟩
+  | cons x xs ih => intro seen ys h; exact ih (wfNodes_tail h)
+
+theorem ckParse_dec3 (k : Nat) (h : k < 1000) : ckParse (dec3 k) = some k := by
+  have hl := dec3_length k h
+  have hd := dec3_all_digit k
+  have hv := decVal_dec3 k
+  match hk : dec3 k, hl with
+  | [a, b, c], _ =>
+    rw [hk] at hd hv
+    simp only [List.all_cons, List.all_nil, Bool.and_true, Bool.and_eq_true] at hd
+    simp only [decVal, List.foldl_cons, List.foldl_nil] at hv
+    simp only [ckParse, hd.1, hd.2.1, hd.2.2, Bool.and_self, if_true, Option.some.injEq]
+    omega
+
+/-- **Round trip, core statement**: once the sequence number text is fixed. -/
+theorem assemble_decode (bs : Bytes) (tbl : Tbl) (m : Msg) (s : Session) (seq now : Bytes)
+    (hb : okBegin bs = true) (h10 : tblNo10 tbl = true)
+    (hwf : wfTop tbl (expectedCont bs m s seq now) = true)
+    (hd : (natToDec (bodyBytes (wireFlds m s seq now)).length).length ≤ maxStrDigits) :
+    assemble bs m s seq now = .ok (mkFrame bs (wireFlds m s seq now)) ∧
+    decode bs tbl (mkFrame bs (wireFlds m s seq now)) =
+      .msg { mtype := lastMtype (preFlds bs (wireFlds m s seq now)),
+             body := expectedCont bs m s seq now ++
+               [.leaf tag10 (dec3 (frameCk bs (wireFlds m s seq now)))] }
+        (mkFrame bs (wireFlds m s seq now)).length (mkFrame bs (wireFlds m s seq now)) := by
+  -- the body part of the expected container is well formed, so `_addTag` emits its wire order
+  have hw := hwf
+  simp only [wfTop, Bool.and_eq_true] at hw
+  have hnodes := hw.1.1.1
+  rw [expectedCont_eq] at hnodes
+  obtain ⟨seen', hbody⟩ := wfNodes_drop _ hnodes
+  have hflat := addCont_wf hbody
+  refine ⟨assemble_eq_mkFrame bs m s seq now _ hflat, ?_⟩
+  -- framing
+  have hok : okFields (preFlds bs (wireFlds m s seq now)) = true := by
+    rw [← flat_expectedCont]; exact okFields_flatCont_wfTop hwf h10
+  have hokw : okFields (wireFlds m s seq now) = true := by
+    simp only [preFlds, okFields, List.all_cons, Bool.and_eq_true] at hok
+    exact hok.2.2
+  rw [decode_mkFrame_F bs tbl _ hb hokw hd]
+  -- field loop = group reconstruction on the expected container
+  have hloop := fieldLoopF_wfTop tbl (frameCk bs (wireFlds m s seq now)) (expectedCont bs m s seq now)
+    (dec3 (frameCk bs (wireFlds m s seq now))) hwf
+  rw [flat_expectedCont] at hloop
+  have hfl : frameFlds bs (wireFlds m s seq now) =
+      preFlds bs (wireFlds m s seq now) ++ [⟨tag10, dec3 (frameCk bs (wireFlds m s seq now))⟩] := rfl
+  rw [hfl, hloop]
+  simp [ckParse_dec3 _ (Nat.lt_trans (frameCk_lt bs _) (by decide))]
+
+/-- **C01**: `Codec.encode` followed by `Codec.decode`.  `seq`/`s'` are what the encoder's
+sequence-number selection yields: the allocated number (session counter + 1 afterwards), or the number
+the message already carried (PossDup / SequenceReset / raw mode; session unchanged). -/
+theorem encode_decode (bs : Bytes) (tbl : Tbl) (m : Msg) (s s' : Session) (rawSeq : Bool) (seq now : Bytes)
+    (hb : okBegin bs = true) (h10 : tblNo10 tbl = true)
+    (hsel : selectSeq m s rawSeq = .ok (seq, s'))
+    (hwf : wfTop tbl (expectedCont bs m s' seq now) = true)
+    (hd : (natToDec (bodyBytes (wireFlds m s' seq now)).length).length ≤ maxStrDigits) :
+    encode bs m s rawSeq now = (.ok (mkFrame bs (wireFlds m s' seq now)), s') ∧
+    decode bs tbl (mkFrame bs (wireFlds m s' seq now)) =
+      .msg { mtype := lastMtype (preFlds bs (wireFlds m s' seq now)),
+             body := expectedCont bs m s' seq now ++
+               [.leaf tag10 (dec3 (frameCk bs (wireFlds m s' seq now)))] }
+        (mkFrame bs (wireFlds m s' seq now)).length (mkFrame bs (wireFlds m s' seq now)) := by
+  obtain ⟨ha, hdec⟩ := assemble_decode bs tbl m s' seq now hb h10 hwf hd
+  refine ⟨?_, hdec⟩
+  unfold encode
+  rw [hsel]
+  simp [ha]
+
+/-- the decoded header carries the session's CompIDs and exactly the selected sequence number -/
+theorem expected_header (bs : Bytes) (m : Msg) (s : Session) (seq now : Bytes) :
+    (expectedCont bs m s seq now).take 7 =
+      [.leaf [56] bs, .leaf [57] (natToDec (bodyBytes (wireFlds m s seq now)).length),
+       .leaf tag35 m.mtype, .leaf tag49 s.sender, .leaf tag56 s.target, .leaf tag34 seq,
+       .leaf tag52 now] := by
+  simp [expectedCont_eq, preFlds, wireFlds, hdrFlds]
+
+/-- … and the body entries follow unchanged -/
+theorem expected_body (bs : Bytes) (m : Msg) (s : Session) (seq now : Bytes) :
+    (expectedCont bs m s seq now).drop 7 = bodyOf m := by
+  simp [expectedCont_eq, preFlds, wireFlds, hdrFlds]
+
+/-- sequence number selection: a new message gets the session's next number, which is consumed -/
+theorem selectSeq_alloc (m : Msg) (s : Session)
+    (hm : (m.mtype == mtSeqReset) = false) (hpd : m.body.find? tag43 = none) :
+    selectSeq m s false = .ok (intToDec s.nextOut, { s with nextOut := s.nextOut + 1 }) := by
+  simp [selectSeq, hm, hpd, bind, Except.bind, pure, Except.pure]
+
+/-- … a message that keeps its number (raw mode) leaves the session alone -/
+theorem selectSeq_raw (m : Msg) (s : Session) (n : Int) (h : seqOf m.body = .ok n) :
+    selectSeq m s true = .ok (intToDec n, s) := by
+  simp [selectSeq, h, bind, Except.bind, pure, Except.pure]
+
+/-- the type the decoder reports is the message's own, when no body field is tagged 35 -/
+theorem lastMtype_expected (bs : Bytes) (m : Msg) (s : Session) (seq now : Bytes)
+    (h35 : ∀ f ∈ flatCont (bodyOf m), (f.tag == tag35) = false) :
+    lastMtype (preFlds bs (wireFlds m s seq now)) = m.mtype := by
+  have key : ∀ (l : List Fld) (init : Bytes), (∀ f ∈ l, (f.tag == tag35) = false) →
+      l.foldl (fun acc f => if f.tag == tag35 then f.val else acc) init = init := by
+    intro l
+    induction l with
+    | nil => intro init _; rfl
+    | cons f rest ih =>
+      intro init h
+      simp only [List.foldl_cons, h f (by simp), Bool.false_eq_true, if_false]
+      exact ih init (fun g hg => h g (by simp [hg]))
+  simp only [lastMtype, preFlds, wireFlds, hdrFlds, List.cons_append, List.nil_append, List.foldl_cons]
+  have e1 : (([56] : Bytes) == tag35) = false := by decide
+  have e2 : (([57] : Bytes) == tag35) = false := by decide
+  have e3 : (tag35 == tag35) = true := by decide
+  have e4 : (tag49 == tag35) = false := by decide
+  have e5 : (tag56 == tag35) = false := by decide
+  have e6 : (tag34 == tag35) = false := by decide
+  have e7 : (tag52 == tag35) = false := by decide
+  simp only [e1, e2, e3, e4, e5, e6, e7, Bool.false_eq_true, if_false, if_true]
+  exact key _ _ h35
+
+/-! ### side conditions on the generated protocol data (re-checked against /repo every run) -/
+
+def protoBegin : Bytes := AsyncFix.Generated.Proto.beginStringBytes
+def protoTbl : Tbl := AsyncFix.Generated.Proto.groupsBytes
+
+theorem okBegin_proto : okBegin protoBegin = true := by decide +kernel
+theorem tblNo10_proto : tblNo10 protoTbl = true := by decide +kernel
+/-- no group of the table has MsgType(35) as a member: the decoder reports the message's own type -/
+theorem tblNo35_proto : (protoTbl.all fun p => !p.2.contains tag35) = true := by decide +kernel
+/-- the FIX 4.4 table is a function: no group tag is listed twice -/
+theorem tbl_nodup_proto : (protoTbl.map (·.1)).Nodup := by decide +kernel
+
+/-! ### non-vacuity: a NewOrderSingle with a 2-item NoPartyIDs(453) group whose first item holds a
+nested NoPartySubIDs(802) group, a value that looks like framing, on the GENERATED FIX 4.4 table -/
+
+def exMsg : Msg :=
+  { mtype := [68],
+    body := [.leaf [53, 53] [65],
+             .group [52, 53, 51]
+               [[.leaf [52, 52, 56] [88], .leaf [52, 52, 55] [68],
+                 .group [56, 48, 50] [[.leaf [53, 50, 51] [115]], [.leaf [53, 50, 51] [116], .leaf [56, 48, 51] [49]]]],
+                [.leaf [52, 52, 56] [89]]],
+             .leaf [53, 56] [56, 61, 70, 73, 88, 46, 52, 46, 52, 32, 49, 48, 61]] }
+
+def exSess : Session := { sender := [83], target := [84], nextOut := 7 }
+
+set_option maxRecDepth 4000 in
+theorem ex_wf : wfTop protoTbl (expectedCont protoBegin exMsg { exSess with nextOut := 8 } [55] [50, 48]) = true := by
+  simp [wfTop, expectedCont, preFlds, wireFlds, hdrFlds, bodyOf, skipTags, exMsg, exSess, protoTbl, protoBegin,
+    AsyncFix.Generated.Proto.groupsBytes, AsyncFix.Generated.Proto.beginStringBytes,
+    wfNodes, wfNode, wfItems, wfItem, Tbl.members?, okTag, isDigit,
+    maxStrDigits, SOH, notOpen, openMembersNode, openMembersItems, openMembersCont, contTags,
+    Node.tag, tag10, tag34, tag35, tag49, tag52, tag56]
+  simpa [SOH] using natToDec_no_SOH _
 
 end AsyncFix.Props.C01
